@@ -28,6 +28,7 @@ type Engine struct {
 	contracts *ContractFile
 	pool      *Pool
 	tables    map[*ssa.Global]Value
+	sliceLens map[string]int64
 	tableSrc  map[string]*tableInfo
 	refPkgs   []*packages.Package
 	refProg   *ssa.Program
@@ -115,6 +116,24 @@ func (eng *Engine) collectTables() {
 						if obj == nil {
 							continue
 						}
+						if _, isSlice := obj.Type().Underlying().(*types.Slice); isSlice {
+							// a slice-typed table: its length is the literal's (package-level variables are
+							// never stored to outside init: global store scan); contents stay unknown here
+							n, okLen := int64(0), true
+							for _, el := range cl.Elts {
+								if _, kv := el.(*ast.KeyValueExpr); kv {
+									okLen = false
+								}
+								n++
+							}
+							if okLen {
+								if eng.sliceLens == nil {
+									eng.sliceLens = map[string]int64{}
+								}
+								eng.sliceLens[p.Name+"."+nm.Name] = n
+							}
+							continue
+						}
 						at, ok := obj.Type().Underlying().(*types.Array)
 						if !ok {
 							continue
@@ -199,6 +218,16 @@ func (eng *Engine) globalValue(ex *Exec, st *State, g *ssa.Global) Value {
 	if stt, ok := t.Underlying().(*types.Struct); ok {
 		if sv := eng.constStructGlobal(g, stt); sv != nil {
 			return sv
+		}
+	}
+	if n, ok := eng.sliceLens[key]; ok {
+		if sl, isSlice := t.Underlying().(*types.Slice); isSlice {
+			if v, ok := ex.freshValue(st, "global."+g.Name(), t, "global").(*SliceV); ok {
+				_ = sl
+				v.Len, v.Cap = I64(n), I64(n)
+				v.Reg.Kind = "string" // immutable table data
+				return v
+			}
 		}
 	}
 	if isErrorType(t) {
